@@ -19,7 +19,7 @@ def run(tier, seed):
         tr = datagen.Translator(rng, V, D, flex=True, conv=True, modes=True)
         execs.append({"x": "w%d" % n, "steps": datagen.fixture(V, D, fmt=fmts[n % 3]) + tr.steps(h)})
     # the recorded overlapping-read finding is kept out of the walks; one dedicated execution exercises it
-    execs.append({"x": "overlapread", "steps": datagen.fixture(V, D) + [
+    execs.append({"x": "overlapread", "special": 1, "steps": datagen.fixture(V, D) + [
         {"op": "put", "v": 0, "form": "var", "mode": "coll", "itype": "int", "vals": list(range(1, 25)), "obs": datagen.OBS},
         {"op": "get", "kind": "i", "req": "d", "v": 0, "form": "vara", "itype": "int", "start": [0, 2], "count": [1, 1], "n": 1, "obs": datagen.OBS},
         {"op": "get", "kind": "i", "req": "e", "v": 0, "form": "vars", "itype": "int", "start": [0, 0], "count": [2, 2], "stride": [1, 2], "n": 4, "obs": datagen.OBS},
